@@ -278,7 +278,7 @@ theorem inv_sigStop {s : S} (h : Nat) (hi : Inv s) : Inv (sigStop s h) := by
 
 theorem inv_insert {s : S} (hi : Inv s) (h sig : Nat) (os : Bool) (h0 : (s.hs h).signum = 0)
     (hc : (s.hs h).closing = false) (hsig : sig ≠ 0) (d' : Nat → Disp) (dl' : Nat → Bool) (st : Bool)
-    (H' : Handle) (hH' : H' = { s.hs h with signum := sig, oneshot := os, gen := (s.hs h).gen + 1 })
+    {cb : Nat} (H' : Handle) (hH' : H' = { s.hs h with signum := sig, oneshot := os, gen := (s.hs h).gen + 1, cb := cb })
     (hd : ∀ sig', d' sig' = expectedDisp (treeInsert (keyOf h H') s.tree) dl' sig') :
     Inv { s with hs := upd s.hs h H', tree := treeInsert (keyOf h H') s.tree, disp := d', delivered := dl', stale := st } := by
   have hnoid : ∀ k ∈ s.tree, k.id ≠ h := by
@@ -322,14 +322,39 @@ theorem expectedDisp_insert_other {t : List Key} {d d' : Nat → Bool} {k : Key}
     · exact h
   · exact Or.inr
 
-theorem inv_sigStart {s : S} (h sig : Nat) (os : Bool) (hi : Inv s) (hc : (s.hs h).closing = false) :
-    Inv (sigStart s h sig os).1 := by
+/-- changes that leave tree, disposition and the key fields of every handle alone -/
+theorem inv_frame {s s' : S} (hi : Inv s) (ht : s'.tree = s.tree) (hd : s'.disp = s.disp)
+    (hdl : s'.delivered = s.delivered)
+    (hk : ∀ h, keyOf h (s'.hs h) = keyOf h (s.hs h))
+    (hc : ∀ h, (s'.hs h).closing = true → (s.hs h).closing = true ∨ (s.hs h).signum = 0) : Inv s' := by
+  have hsg : ∀ h, (s'.hs h).signum = (s.hs h).signum := fun h => by
+    have := hk h; simp only [keyOf, Key.mk.injEq] at this; exact this.1
+  refine ⟨by rw [ht]; exact hi.sorted, ?_, ?_, ?_, ?_⟩
+  · intro k hk'; rw [ht] at hk'; rw [hk]; exact hi.key k hk'
+  · intro h hh; rw [ht, hk]; rw [hsg] at hh; exact hi.started h hh
+  · intro h hh; rw [hsg]; rcases hc h hh with h1 | h1
+    · exact hi.closing h h1
+    · exact h1
+  · intro sig; rw [hd, ht, hdl]; exact hi.disp sig
+
+theorem inv_setCb {s : S} (h cb : Nat) (hi : Inv s) : Inv (setCb s h cb) := by
+  unfold setCb
+  refine inv_frame hi rfl rfl rfl ?_ ?_
+  · intro h'; simp only [upd_apply]; split
+    · rename_i e; subst e; simp [keyOf]
+    · rfl
+  · intro h' hc; simp only [upd_apply] at hc; split at hc
+    · rename_i e; subst e; exact Or.inl hc
+    · exact Or.inl hc
+
+theorem inv_sigStart {s : S} (h sig : Nat) (os : Bool) (cb : Nat) (hi : Inv s) (hc : (s.hs h).closing = false) :
+    Inv (sigStart s h sig os cb).1 := by
   unfold sigStart
   split
   · exact hi
   rename_i hsig
   split
-  · exact hi
+  · exact inv_setCb h cb hi
   rename_i hne
   have hi1 := inv_sigStop h hi
   have h0 : ((sigStop s h).hs h).signum = 0 := by
@@ -401,21 +426,6 @@ theorem inv_sigStart {s : S} (h sig : Nat) (os : Bool) (hi : Inv s) (hc : (s.hs 
         exact (expectedDisp_insert_other (by simpa [keyOf] using e) rfl).symm
 
 
-/-- changes that leave tree, disposition and the key fields of every handle alone -/
-theorem inv_frame {s s' : S} (hi : Inv s) (ht : s'.tree = s.tree) (hd : s'.disp = s.disp)
-    (hdl : s'.delivered = s.delivered)
-    (hk : ∀ h, keyOf h (s'.hs h) = keyOf h (s.hs h))
-    (hc : ∀ h, (s'.hs h).closing = true → (s.hs h).closing = true ∨ (s.hs h).signum = 0) : Inv s' := by
-  have hsg : ∀ h, (s'.hs h).signum = (s.hs h).signum := fun h => by
-    have := hk h; simp only [keyOf, Key.mk.injEq] at this; exact this.1
-  refine ⟨by rw [ht]; exact hi.sorted, ?_, ?_, ?_, ?_⟩
-  · intro k hk'; rw [ht] at hk'; rw [hk]; exact hi.key k hk'
-  · intro h hh; rw [ht, hk]; rw [hsg] at hh; exact hi.started h hh
-  · intro h hh; rw [hsg]; rcases hc h hh with h1 | h1
-    · exact hi.closing h h1
-    · exact h1
-  · intro sig; rw [hd, ht, hdl]; exact hi.disp sig
-
 theorem sigStop_signum (s : S) (h : Nat) : ((sigStop s h).hs h).signum = 0 := by
   by_cases e : (s.hs h).signum = 0
   · rw [sigStop_noop e]; exact e
@@ -448,8 +458,8 @@ theorem inv_setRef {s : S} (h : Nat) (r : Bool) (hi : Inv s) : Inv (setRef s h r
 
 theorem inv_applyOp {s : S} (o : Op) (hi : Inv s) : Inv (applyOp s o).1 := by
   cases o <;> simp only [applyOp] <;> split <;> (try exact hi)
-  · rename_i hc; simp only [Bool.not_eq_true] at hc; exact inv_sigStart _ _ false hi hc
-  · rename_i hc; simp only [Bool.not_eq_true] at hc; exact inv_sigStart _ _ true hi hc
+  · rename_i hc; simp only [Bool.not_eq_true] at hc; exact inv_sigStart _ _ false _ hi hc
+  · rename_i hc; simp only [Bool.not_eq_true] at hc; exact inv_sigStart _ _ true _ hi hc
   · exact inv_sigStop _ hi
   · exact inv_uvClose _ hi
   · exact inv_setRef _ _ hi
@@ -528,14 +538,14 @@ theorem inv_dispatchMsg {s : S} (sc : Script) (L : Nat) (m : Msg) (hi : Inv s) :
   unfold dispatchMsg
   simp only
   have step1 : Inv (if m.sig = (s.hs m.h).signum then
-      runOps { s with trace := .signal m.h m.sig L m.gen (s.hs m.h).gen :: s.trace, ncb := s.ncb + 1 } (sc s.ncb)
+      runOps { s with trace := .signal m.h m.sig L m.gen (s.hs m.h).gen :: s.trace, ncb := s.ncb + 1, cbLog := (s.hs m.h).cb :: s.cbLog } (sc s.ncb)
     else s) := by
     split
     · apply inv_runOps
       exact inv_frame hi rfl rfl rfl (fun _ => rfl) (fun _ h => Or.inl h)
     · exact hi
   generalize (if m.sig = (s.hs m.h).signum then
-      runOps { s with trace := .signal m.h m.sig L m.gen (s.hs m.h).gen :: s.trace, ncb := s.ncb + 1 } (sc s.ncb)
+      runOps { s with trace := .signal m.h m.sig L m.gen (s.hs m.h).gen :: s.trace, ncb := s.ncb + 1, cbLog := (s.hs m.h).cb :: s.cbLog } (sc s.ncb)
     else s) = s1 at step1
   have step2 : Inv { s1 with hs := upd s1.hs m.h { s1.hs m.h with dispatched := (s1.hs m.h).dispatched + 1 } } := by
     refine inv_frame step1 rfl rfl rfl ?_ ?_
@@ -669,9 +679,9 @@ theorem aux_sigStop {d : Nat → Nat} {s : S} (h : Nat) (ha : AuxG d s) : AuxG d
     · intro e2; exact absurd e2 (ha.own L m hm).2
     · exact f1 L m hm
 
-theorem aux_insert {d : Nat → Nat} {s : S} (ha : AuxG d s) (h sig : Nat) (os : Bool)
+theorem aux_insert {d : Nat → Nat} {s : S} (ha : AuxG d s) (h sig : Nat) (os : Bool) (cb : Nat)
     (tr : List Key) (d' : Nat → Disp) (dl' : Nat → Bool) :
-    AuxG d { s with hs := upd s.hs h { s.hs h with signum := sig, oneshot := os, gen := (s.hs h).gen + 1 },
+    AuxG d { s with hs := upd s.hs h { s.hs h with signum := sig, oneshot := os, gen := (s.hs h).gen + 1, cb := cb },
                     tree := tr, disp := d', delivered := dl', stale := s.stale || pendingSame s h sig } := by
   refine aux_frame ha rfl ?_ ?_ ?_
   · intro j; simp only [upd_apply]; split
@@ -693,38 +703,55 @@ theorem aux_insert {d : Nat → Nat} {s : S} (ha : AuxG d s) (h sig : Nat) (os :
       simp [e, e2] at this
     · exact f1 L m hm
 
-theorem sigStart_shape (s : S) (h sig : Nat) (os : Bool) :
-    (sigStart s h sig os).1 = s ∨ (sigStart s h sig os).1 = sigStop s h ∨
-    ∃ tr d' dl', (sigStart s h sig os).1 =
+theorem sigStart_shape (s : S) (h sig : Nat) (os : Bool) (cb : Nat) :
+    (sigStart s h sig os cb).1 = s ∨ (sigStart s h sig os cb).1 = setCb s h cb ∨
+    (sigStart s h sig os cb).1 = sigStop s h ∨
+    ∃ tr d' dl', (sigStart s h sig os cb).1 =
       { sigStop s h with
-        hs := upd (sigStop s h).hs h { (sigStop s h).hs h with signum := sig, oneshot := os, gen := ((sigStop s h).hs h).gen + 1 },
+        hs := upd (sigStop s h).hs h { (sigStop s h).hs h with signum := sig, oneshot := os, gen := ((sigStop s h).hs h).gen + 1, cb := cb },
         tree := tr, disp := d', delivered := dl',
         stale := (sigStop s h).stale || pendingSame (sigStop s h) h sig } := by
   unfold sigStart
   split
   · exact Or.inl rfl
   split
-  · exact Or.inl rfl
+  · exact Or.inr (Or.inl rfl)
   generalize sigStop s h = s1
   simp only
   cases hf : firstHandle s1.tree sig with
   | none =>
     simp only [Bool.true_and]; split
-    · exact Or.inr (Or.inl rfl)
-    · exact Or.inr (Or.inr ⟨_, _, _, rfl⟩)
+    · exact Or.inr (Or.inr (Or.inl rfl))
+    · exact Or.inr (Or.inr (Or.inr ⟨_, _, _, rfl⟩))
   | some f =>
     simp only; split
-    · exact Or.inr (Or.inl rfl)
+    · exact Or.inr (Or.inr (Or.inl rfl))
     · split
-      · exact Or.inr (Or.inr ⟨_, _, _, rfl⟩)
-      · exact Or.inr (Or.inr ⟨_, _, _, rfl⟩)
+      · exact Or.inr (Or.inr (Or.inr ⟨_, _, _, rfl⟩))
+      · exact Or.inr (Or.inr (Or.inr ⟨_, _, _, rfl⟩))
 
-theorem aux_sigStart {d : Nat → Nat} {s : S} (h sig : Nat) (os : Bool) (ha : AuxG d s) :
-    AuxG d (sigStart s h sig os).1 := by
-  rcases sigStart_shape s h sig os with e | e | ⟨tr, d', dl', e⟩
+theorem aux_setCb {d : Nat → Nat} {s : S} (h cb : Nat) (ha : AuxG d s) : AuxG d (setCb s h cb) := by
+  unfold setCb
+  refine aux_frame ha rfl ?_ ?_ ?_
+  · intro j; simp only [upd_apply]; split
+    · rename_i e; subst e; simp
+    · simp
+  · intro L k hk; simp only [upd_apply]; split
+    · rename_i e; subst e; exact ha.cq L k hk
+    · exact ha.cq L k hk
+  · intro hst; obtain ⟨f1, f2⟩ := ha.fresh hst
+    refine ⟨?_, f2⟩
+    intro L m hm; simp only [upd_apply]; split
+    · rename_i e; have := f1 L m hm; rw [e] at this; exact this
+    · exact f1 L m hm
+
+theorem aux_sigStart {d : Nat → Nat} {s : S} (h sig : Nat) (os : Bool) (cb : Nat) (ha : AuxG d s) :
+    AuxG d (sigStart s h sig os cb).1 := by
+  rcases sigStart_shape s h sig os cb with e | e | e | ⟨tr, d', dl', e⟩
   · rw [e]; exact ha
+  · rw [e]; exact aux_setCb h cb ha
   · rw [e]; exact aux_sigStop h ha
-  · rw [e]; exact aux_insert (aux_sigStop h ha) h sig os tr d' dl'
+  · rw [e]; exact aux_insert (aux_sigStop h ha) h sig os cb tr d' dl'
 
 theorem aux_uvClose {d : Nat → Nat} {s : S} (h : Nat) (ha : AuxG d s) : AuxG d (uvClose s h) := by
   unfold uvClose
@@ -767,8 +794,8 @@ theorem aux_setRef {d : Nat → Nat} {s : S} (h : Nat) (r : Bool) (ha : AuxG d s
 
 theorem aux_applyOp {d : Nat → Nat} {s : S} (o : Op) (ha : AuxG d s) : AuxG d (applyOp s o).1 := by
   cases o <;> simp only [applyOp] <;> split <;> (try exact ha)
-  · exact aux_sigStart _ _ false ha
-  · exact aux_sigStart _ _ true ha
+  · exact aux_sigStart _ _ false _ ha
+  · exact aux_sigStart _ _ true _ ha
   · exact aux_sigStop _ ha
   · exact aux_uvClose _ ha
   · exact aux_setRef _ _ ha
@@ -958,7 +985,7 @@ theorem aux_dispatchStep {s : S} (sc : Script) {L : Nat} {m : Msg} {rest : List 
   unfold dispatchMsg
   simp only
   have step1 : AuxG (debt m.h) (if m.sig = (s.hs m.h).signum then
-      runOps { s with pipes := upd s.pipes L rest, trace := .signal m.h m.sig L m.gen (s.hs m.h).gen :: s.trace, ncb := s.ncb + 1 } (sc s.ncb)
+      runOps { s with pipes := upd s.pipes L rest, trace := .signal m.h m.sig L m.gen (s.hs m.h).gen :: s.trace, ncb := s.ncb + 1, cbLog := (s.hs m.h).cb :: s.cbLog } (sc s.ncb)
     else { s with pipes := upd s.pipes L rest }) := by
     split
     · rename_i hm
@@ -972,7 +999,7 @@ theorem aux_dispatchStep {s : S} (sc : Script) {L : Nat} {m : Msg} {rest : List 
       · exact f2 h sig L' mg hg hin
     · exact hpop
   generalize (if m.sig = (s.hs m.h).signum then
-      runOps { s with pipes := upd s.pipes L rest, trace := .signal m.h m.sig L m.gen (s.hs m.h).gen :: s.trace, ncb := s.ncb + 1 } (sc s.ncb)
+      runOps { s with pipes := upd s.pipes L rest, trace := .signal m.h m.sig L m.gen (s.hs m.h).gen :: s.trace, ncb := s.ncb + 1, cbLog := (s.hs m.h).cb :: s.cbLog } (sc s.ncb)
     else { s with pipes := upd s.pipes L rest }) = s1 at step1
   have step2 := aux_pay step1
   split
